@@ -268,9 +268,14 @@ def handleToggle (e : Env) (s : XSt) (p : ClientProp) : Out XSt :=
     csInit c cons e
     pure (s.set p.chain c)
 
+/-- lexical class of a bech32 account-address string: empty, not parseable, parseable
+(`sdk.AccAddressFromBech32` rejects the empty / blank string first, so "empty and valid" does not exist). -/
+inductive AddrStr | empty | bad | good
+  deriving DecidableEq, Repr
+
 structure RelayerProp where
   absOk : Bool
-  addrOk : Bool
+  addr : AddrStr
   nChains : Nat
   nAddrs : Nat
   chainsOk : Bool
@@ -278,12 +283,14 @@ structure RelayerProp where
 
 def relayerValidateBasic (p : RelayerProp) : Out Unit :=
   if !p.absOk then .err "abstract" else
-  if !p.addrOk then .err "address" else
+  if p.addr ≠ .good then .err "address" else
   if p.nAddrs = 0 ∨ p.nAddrs ≠ p.nChains then .err "length" else
   if !p.chainsOk then .err "chain" else .ok ()
 
-/-- `handleRegisterRelayerProposal`: total (store write). -/
-def handleRelayer (s : XSt) (_ : RelayerProp) : Out XSt := .ok s
+/-- `handleRegisterRelayerProposal` → `RegisterRelayers`: `store.Set([]byte(address), …)` — the cosmos-sdk store panics
+("key is nil") on an EMPTY key, i.e. on an empty `Address` string; otherwise total. -/
+def handleRelayer (s : XSt) (p : RelayerProp) : Out XSt :=
+  if p.addr = .empty then .panic "client.RegisterRelayers: store.Set nil key (empty address)" else .ok s
 
 inductive XProp
   | create (p : ClientProp) | upgrade (p : ClientProp) | toggle (p : ClientProp) | relayer (p : RelayerProp)
@@ -589,33 +596,58 @@ def handleUpdatePair (e : UpdEnv) (s : ASt) (old new : String) : Out ASt :=
                                  denomMap := pair.denoms.foldl (fun m d => erase m d) s.denomMap }
         pure (((s1.setPair id' pair').setDenoms (d0 :: pair.denoms.tail) id').setErc new id')
 
-/-- `EnableTimeBasedSupplyLimitProposal`: the four decimal strings as `big.Int.SetString` sees them
-(`none` = not a number ⇒ nil `*big.Int`). -/
+/-! ### string → number parsers (transcribed; validator and handler each name THEIR parser) -/
+
+/-- Go `(*big.Int).SetString(s, 10)` (math/big `Int.scan` + `nat.scan` with base 10, then "entire string consumed"):
+an optional single `+` / `-`, then ONE OR MORE ASCII digits `0`–`9`, nothing else — no `0x` / `0b` / `0o` prefixes, no
+underscores (both only for base 0), no white space, no exponent, no non-ASCII digits; leading zeros are plain decimal.
+`none` = `(nil, false)`. -/
+def setString10 (s : String) : Option Int :=
+  let cs := s.toList
+  let sd : Bool × List Char :=
+    match cs with
+    | '+' :: r => (false, r)
+    | '-' :: r => (true, r)
+    | r => (false, r)
+  if sd.2.isEmpty || !sd.2.all Char.isDigit then none
+  else
+    let n : Nat := sd.2.foldl (fun a c => 10 * a + (c.toNat - 48)) 0
+    some (if sd.1 then - (n : Int) else (n : Int))
+
+/-- the parser `EnableTimeBasedSupplyLimitProposal.ValidateBasic` applies to its four numeric fields:
+`new(big.Int).SetString(field, 10)`, `valid` flag CHECKED. -/
+def limitVbParse (s : String) : Option Int := setString10 s
+
+/-- the parser `handleEnableTimeBasedSupplyLimitProposal` applies to the same fields when it re-parses them:
+`new(big.Int).SetString(field, 10)`, flag DISCARDED (`x, _ :=`): `none` is a nil `*big.Int` that reaches `abi.Pack`. -/
+def limitHParse (s : String) : Option Int := setString10 s
+
+/-- `EnableTimeBasedSupplyLimitProposal`: the four numeric fields are the raw strings of the content. -/
 structure LimitProp where
   addrOk : Bool
-  period : Option Int
-  limit : Option Int
-  maxAmt : Option Int
-  minAmt : Option Int
+  period : String
+  limit : String
+  maxAmt : String
+  minAmt : String
   absOk : Bool
   deriving Repr
 
 def limitValidateBasic (p : LimitProp) : Out Unit :=
   if !p.addrOk then .err "address" else
-  match p.period with
+  match limitVbParse p.period with
   | none => .err "period" | some tp => if tp ≤ 0 then .err "period" else
-  match p.minAmt with
+  match limitVbParse p.minAmt with
   | none => .err "min" | some mn => if mn ≤ 0 then .err "min" else
-  match p.maxAmt with
+  match limitVbParse p.maxAmt with
   | none => .err "max" | some mx => if mx ≤ mn then .err "max" else
-  match p.limit with
+  match limitVbParse p.limit with
   | none => .err "limit" | some l => if l ≤ mx then .err "limit" else
   if p.absOk then .ok () else .err "abstract"
 
-/-- `handleEnableTimeBasedSupplyLimitProposal`: `SetString` results used unchecked; a nil `*big.Int` reaches
-`abi.Pack` (nil dereference). -/
+/-- `handleEnableTimeBasedSupplyLimitProposal`: re-parses the four strings, results used unchecked; a nil `*big.Int`
+reaches `abi.Pack` (`reflect: call of reflect.Value.Type on zero Value`). -/
 def handleEnableLimit (evmOk : Bool) (p : LimitProp) : Out Unit :=
-  if p.period.isNone ∨ p.limit.isNone ∨ p.maxAmt.isNone ∨ p.minAmt.isNone then
+  if (limitHParse p.period).isNone ∨ (limitHParse p.limit).isNone ∨ (limitHParse p.maxAmt).isNone ∨ (limitHParse p.minAmt).isNone then
     .panic "aggregate.handleEnableTimeBasedSupplyLimitProposal: nil *big.Int in abi.Pack"
   else if evmOk then .ok () else .err "evm"
 
